@@ -213,13 +213,14 @@ def _jsonable_env(env):
 
 def run_config_symbolic(pid, cfg, tier, seed):
     """worker entry: returns a JSON-able record for one configuration"""
+    cfg = dict(cfg, _tier=tier)
     from . import prove, loader, explore, ctx as _ctx
     mod = load_prop(pid)
     t0 = time.time()
     tm.reset()
     tm.set_mode('fp' if cfg.get('domain') == 'fp' else 'real')
     prove.stats_reset()
-    rec = {'cfg': cfg, 'obligations': [], 'error': None, 'notes': [], 'paths': 0}
+    rec = {'cfg': {k: v for k, v in cfg.items() if k != '_tier'}, 'obligations': [], 'error': None, 'notes': [], 'paths': 0}
     try:
         fd = loader.fresh(symbolic=True)
         timeout_ms = cfg.get('timeout_ms', 20000 if tier == 'quick' else 120000)
@@ -412,6 +413,15 @@ def discharge(mod, pid, cfg, o, A, B, timeout_ms, seed, path, swept_goal=None):
         orec['verdict'] = res.verdict
         if res.note:
             orec['note'] = res.note
+        if (res.verdict == 'proved' and o.method == 'direct' and cfg.get('_tier') == 'thorough' and cfg.get('domain') != 'fp'
+                and B.case.info.get('_xchecks', 0) < 2 and goal is not tm.TRUE and not o.meta.get('sqrt_level') == 0):
+            # second opinion on a sample of final queries: the distribution z3 4.8.12 binary on the SMT-LIB2 dump
+            B.case.info['_xchecks'] = B.case.info.get('_xchecks', 0) + 1
+            orec['xcheck'] = cross_check(goal, AA, defined=not o.meta.get('no_definedness', False))
+            if orec['xcheck'].get('verdict') == 'sat':
+                orec['verdict'] = 'unknown'
+                orec['note'] = 'solver disagreement: z3 5.1 unsat, z3 4.8.12 sat'
+                res = prove.Result('unknown', note=orec['note'])
         known = load_known()
         excl = []
         rounds = 0
@@ -460,6 +470,26 @@ def discharge(mod, pid, cfg, o, A, B, timeout_ms, seed, path, swept_goal=None):
     if orec['size'] <= 60:
         orec['text'] = tm.show(goal, 8)[:600]
     return orec
+
+
+def cross_check(goal, assume, defined=True, timeout_s=20):
+    from . import prove
+    import tempfile
+    txt = prove.to_smt2(goal, assume, defined=defined)
+    t0 = time.time()
+    try:
+        with tempfile.NamedTemporaryFile('w', suffix='.smt2', delete=False) as f:
+            f.write(txt)
+            fn = f.name
+        out = subprocess.run(['/usr/bin/z3', '-T:%d' % timeout_s, fn], capture_output=True, text=True, timeout=timeout_s + 10)
+        os.unlink(fn)
+        lines = out.stdout.strip().splitlines()
+        if any('(error' in ln for ln in lines):
+            return {'solver': 'z3-4.8.12', 'verdict': 'error', 's': round(time.time() - t0, 2), 'detail': lines[0][:120]}
+        v = lines[0].strip() if lines else 'none'
+        return {'solver': 'z3-4.8.12', 'verdict': v if v in ('sat', 'unsat', 'unknown', 'timeout') else 'other', 's': round(time.time() - t0, 2)}
+    except Exception as e:     # noqa
+        return {'solver': 'z3-4.8.12', 'verdict': 'error', 'detail': repr(e)[:100]}
 
 
 def replay_subprocess(pid, cfg, env, obname, decisions=None, keep=None):
@@ -708,6 +738,7 @@ def report(mod, pid, tier, seed, recs, wall, verbose=False):
     paths = 0
     notes = []
     vac = 0
+    xstats = {}
     for r in recs:
         if r['error']:
             harness_errors.append({'cfg': r['cfg'], 'error': r['error']})
@@ -744,6 +775,9 @@ def report(mod, pid, tier, seed, recs, wall, verbose=False):
                 else:
                     harness_errors.append({'cfg': r['cfg'], 'obligation': o['name'], 'replay': rep,
                                            'env': o.get('env')})
+            if 'xcheck' in o:
+                xc = o['xcheck'].get('verdict')
+                xstats[xc] = xstats.get(xc, 0) + 1
             if len(samples) < 4 and 'text' in o and v == 'proved' and o.get('how') is None:
                 samples.append({'cfg': r['cfg'], 'obligation': o['name'], 'goal': o['text'], 'verdict': v,
                                 'seconds': o['s']})
@@ -793,6 +827,7 @@ def report(mod, pid, tier, seed, recs, wall, verbose=False):
             'counterexamples_replayed': counts.get('cex', 0),
             'known_findings_matched': {k: len(v) for k, v in known_hits.items()},
             'queries': {k: stats[k] for k in ('queries', 'unsat', 'sat', 'unknown')},
+            'cross_check_z3_4_8_12': xstats,
             'solver_seconds': round(stats['solver_s'], 2),
             'evaluations': max(nob, 1),
             'distinct_nontrivial': len(nontrivial),
